@@ -418,6 +418,9 @@ def _input_read(eng, st, recv, args, kwargs, line):
     reads = s2.ghost['reads']
     s2.ghost['reads'] = V(List(INT), z3.Concat(reads.t, z3.Unit(n.t)))
     eng._wrote(s2, ('ghost', 'reads'))
+    if 'bodies' in s2.ghost:
+        s2.ghost['bodies'] = V(List(BYTES), z3.Concat(s2.ghost['bodies'].t, z3.Unit(body)))
+        eng._wrote(s2, ('ghost', 'bodies'))
     yield s2, V(BYTES, body)
 
 
@@ -688,6 +691,7 @@ LIBM[('opaque:WS', 'close')] = _ws_close
 
 
 compressed = z3.Function('compressed', z3.StringSort(), z3.StringSort(), z3.StringSort())
+lib.SPECIAL['utf8_ok'] = _sp1(lambda eng, st, b: vbool(lib.utf8_ok(b.t)))
 lib.SPECIAL['compressed'] = _sp1(lambda eng, st, kind, data: V(BYTES, compressed(kind.t, data.t)))
 
 
